@@ -66,7 +66,9 @@ type rulesConfig struct {
 	// Will only contain non-deprecated RuleIDs.
 	// This will only contain RuleIDs of the given RuleType.
 	//
-	// Will always be non-empty.
+	// May be empty if the configuration selects no rules, for example if every used rule is
+	// also excepted. Callers must not make a check.Request in this case, as a check.Request
+	// without RuleIDs means all default rules.
 	//
 	// If no specific RuleIDs were configured, this will return all default RuleIDs that were of
 	// the specified RuleType.
@@ -270,10 +272,10 @@ func newRulesConfig(
 		}
 		delete(resultRuleIDToRule, ruleID)
 	}
+	// resultRules may be empty, for example if every used rule is also excepted, or if the
+	// only used rules are deprecated rules without replacements. This is a valid configuration
+	// that selects no rules, callers warn about it via logRulesConfig.
 	resultRules := slicesext.MapValuesToSlice(resultRuleIDToRule)
-	if len(resultRules) == 0 {
-		return nil, syserror.New("resultRules was empty")
-	}
 	sort.Slice(
 		resultRules,
 		func(i int, j int) bool {
